@@ -87,7 +87,7 @@ class PeeringScenario(Scenario):
         kopf.on.create('kopfexamples', id='c1', registry=reg)(scripted(env, 'c1', parse_script(['ok'])))
         kopf.on.create('kopfexamples', id='c2', registry=reg)(scripted(env, 'c2', parse_script(['temp', 'ok'])))
         kopf.on.update('kopfexamples', id='u1', registry=reg)(scripted(env, 'u1', parse_script(['ok'])))
-        kopf.daemon('kopfexamples', id='dm', registry=reg)(daemon_fn(env, 'dm', reaction='obeys'))
+        kopf.daemon('kopfexamples', id='dm', registry=reg)(daemon_fn(env, 'dm', reaction='obeys', exit_delay=float(self.params.get('daemon_exit_delay', 0.0))))
         if self.params.get('slow_cleanup'):
             # the operator's exit takes a while (its cleanup handlers run after everything else has stopped, the API session still open)
             kopf.on.cleanup(id='cl', registry=reg)(scripted(env, f'cl-{ident}', parse_script([f"ok~{self.params['slow_cleanup']}"])))
@@ -360,6 +360,21 @@ class PeeringScenario(Scenario):
                     out.append(self.viol(env, 'handled-twice', f"handler {key[1]} succeeded {len(lst)} times for object {key[0]} ({key[2]}): {lst}", clause='no-double-handling',
                                          same_operator=len({o for _, o in lst}) == 1))
         # two operators actively handling at the same time in a stable phase is covered by wrong-active-set
+        # "daemons stopped ... no handler executed twice because of the pause": a daemon that is still on its way out when the operator resumes
+        # is not joined by a second instance of itself (one instance per object and daemon at any time)
+        live_dm: dict[tuple[str, str, str], float] = {}
+        for t, k, p in env.obs:
+            if k == 'daemon-enter':
+                key = (p['op'], p['uid'], p['id'])
+                if key in live_dm:
+                    out.append(self.viol(env, 'handled-twice', f"t={t}: daemon {p['id']} of {p['name']} started in {p['op']} while its previous instance (since {live_dm[key]}) "
+                                                               f"had not exited yet", clause='pause', how='daemon-two-instances'))
+                live_dm[key] = t
+            elif k == 'daemon-exit':
+                live_dm.pop((p['op'], p['uid'], p['id']), None)
+            elif k == 'kill':
+                for key in [k2 for k2 in live_dm if k2[0] == p['op']]:
+                    live_dm.pop(key)
         return out
 
 
@@ -408,6 +423,10 @@ def run(tier: str, seed: int) -> CheckResult:
     hist = [build(h, sp, j) for h in histories(depth) for sp, j in ((100.0, 'min'), (100.0, 'max'), (20.0, 'min'))]
     # operators configured with a lifetime other than the documented default of records that do not state theirs (60)
     hist += [build(h, sp, 'min', lifetime=lt) for h in histories(depth) if any(a[0] == 'ghost' for a in h) for sp in (100.0, 20.0) for lt in (30, 120)]
+    # a pause shorter than the time the daemon needs to leave: a higher-priority operator comes and goes again within seconds
+    for sp in (2.0, 3.0, 5.0):
+        for h in ([('start', 'B'), ('stop', 'B')], [('start', 'B'), ('kill', 'B')], [('ghost', 'high')]):
+            hist.append(build(h, sp, 'min', daemon_exit_delay=8.0))
     # a graceful exit while a keep-alive renewal is in its retry backoff (the API answered 500): the record must stay withdrawn
     for stop_at in (66.0, 67.5, 68.0, 69.0):
         user = [(0.0, 'start', 'A'), (2.0, 'create', 'a'), (10.0, 'start', 'B'), (stop_at, 'stop', 'B'), (stop_at + 20.0, 'check', 'after'), (stop_at + 100.0, 'check', 'final')]
